@@ -175,6 +175,9 @@ func checkC01(p *Prog, r *Report) {
 
 	c01Builders(p, ib, r)
 	c01CallSites(p, ib, r)
+	// a timeout left running after its peer is gone answers (or swallows the answer of) a later write with the same counter
+	timersStoppedRule(p, BuildLockset(p, "spine", "model"), r, "R9")
+	approvalCleanupRule(p, r, "R10")
 	r.Rule("R8", "the destination look-up decides 'exists' by equality of whole addresses: every hand-written element-wise comparison of two slices compares their lengths for equality (shared lint, C20-R6)")
 	sliceEqualityHelpers(p, r, "R8")
 	c01WhoMaySend(p, ib, r)
